@@ -15,6 +15,8 @@ CONSTANTS
   LoadLocks = FALSE
   SaveLocks = TRUE
   TruncFirst = FALSE
+  StatBeforeLock = FALSE
+  FreshUpdates = FALSE
   Reread = TRUE
 INVARIANTS
   NoTornRead
